@@ -1,3 +1,4 @@
 /- All raw reader models (C07, parser part). -/
 import Iodata.Model.Rd.Xyz
 import Iodata.Model.Rd.Sdf
+import Iodata.Model.Rd.Mol2
